@@ -70,6 +70,9 @@ def depth(tier):
     return 4
 
 
+DEEP = 5       # thorough: additionally all closed programs of <= 5 lines over the quick alphabet
+
+
 def pseudo_literals(tier):
     out = []
     regs = progs.REG9
